@@ -115,7 +115,7 @@ def g_phase_tagged():
     return run
 
 
-def g_adiabatic(bases=('mol', 'wt'), kinds=('single', 'parallel', 'series')):
+def g_adiabatic(bases=('mol', 'wt'), kinds=('single', 'parallel', 'series'), phases='lg'):
     def run(E):
         fx = R.fixture(not E.concrete)
         hf = sym_Hf(E, fx)
@@ -129,7 +129,7 @@ def g_adiabatic(bases=('mol', 'wt'), kinds=('single', 'parallel', 'series')):
             r2, nu2, X2 = R.mk_reaction(E, fx, 'b', 0, [1, 4], basis)
             rx = (tmo.ParallelReaction if kind == 'parallel' else tmo.SeriesReaction)([r1, r2])
         feed = feed_flows(E, 'f', 5, [1, 1, 0, 1, 0])
-        s = tmo.Stream(None, thermo=th, phase=E.pick('lg', 'phase'))
+        s = tmo.Stream(None, thermo=th, phase=E.pick(list(phases), 'phase'))
         S.inject(s.imol.data, feed)
         stub = c03.StubThermo(th, E)
         stub.mixture = Mix(E, 5)
@@ -160,6 +160,6 @@ def groups(tier):
     return {
         'heat-of-reaction': (g_dH(), dict(max_paths=400000, qtimeout_ms=20000)),
         'phase-tagged-latent-heats': (g_phase_tagged(), dict(qtimeout_ms=20000)),
-        'adiabatic-reaction': (g_adiabatic(('mol',), ('single',)) if q else g_adiabatic(),
+        'adiabatic-reaction': (g_adiabatic(('mol',), ('single',), 'l') if q else g_adiabatic(),
                                dict(max_paths=400000, qtimeout_ms=30000, stubs_required=('solve_T_at_HP',), task_budget_s=200)),
     }
